@@ -385,7 +385,7 @@ fn mid<'a, B: SddBuilder<'a>>(b: &'a B, cfg: &MCfg, ctx: &Ctx) -> Report {
         return s.rep;
     }
     // uncompressed diagrams grow quickly: a thinner core there
-    let thin = if cfg.semantic { 4 } else if !cfg.compress { 3 } else { 1 };
+    let thin = (if cfg.semantic { 4 } else if !cfg.compress { 3 } else { 1 }) * (if n > 10 && ctx.tier == Tier::Quick { 3 } else { 1 });
     let mut core: Vec<usize> = (0..ops.len()).filter(|&i| ops[i].1 == 0).step_by(thin * if cfg.wide() { 2 } else { 1 }).collect();
     if cfg.issue % 2 == 1 {
         core.reverse();
@@ -525,6 +525,15 @@ pub fn left_linear(order: &[usize]) -> VT {
     t
 }
 
+/// a spine to the right whose left children are balanced blocks of about a third of what is left
+pub fn mixed(order: &[usize]) -> VT {
+    if order.len() <= 3 {
+        return balanced(order);
+    }
+    let k = (order.len() / 3).max(1);
+    VT::Node(Box::new(balanced(&order[..k])), Box::new(mixed(&order[k..])))
+}
+
 pub fn balanced(order: &[usize]) -> VT {
     if order.len() == 1 {
         return VT::Leaf(order[0]);
@@ -556,6 +565,33 @@ pub fn configs(ctx: &Ctx, semantic: bool) -> Vec<MCfg> {
                     continue; // uncompressed diagrams (also the hash-identified builder's) over left-leaning vtrees explode
                 }
                 out.push(MCfg { n, vtree: vt.clone(), labels: id.clone(), compress, semantic, table_cap: if i == 2 { 0 } else { 2 }, issue: i + ctx.seed as usize });
+            }
+        }
+    }
+    // neither linear nor balanced, 9 and 11 variables: a spine whose left children are balanced blocks
+    for n in [9usize, 11] {
+        let id: Vec<usize> = (0..n).collect();
+        let rot: Vec<usize> = (0..n).map(|i| (i + n / 2) % n).collect();
+        for (i, vt) in [mixed(&id), mixed(&rot)].into_iter().enumerate() {
+            for &compress in modes.iter() {
+                if !compress && (semantic || i == 1 || n == 11) {
+                    continue;
+                }
+                out.push(MCfg { n, vtree: vt.clone(), labels: id.clone(), compress, semantic, table_cap: 2, issue: i + ctx.seed as usize });
+            }
+        }
+    }
+    // 12 variables on the balanced vtree (decision nodes of 64 elements: comparator and equality of the halves)
+    if !semantic {
+        let id: Vec<usize> = (0..12).collect();
+        out.push(MCfg { n: 12, vtree: balanced(&id), labels: id.clone(), compress: true, semantic: false, table_cap: 2, issue: ctx.seed as usize });
+    }
+    // a 100-leaf mixed vtree with the table variables at labels that are not next to a power of two
+    {
+        let all: Vec<usize> = (0..100).collect();
+        for &compress in modes.iter() {
+            if compress || semantic {
+                out.push(MCfg { n: 8, vtree: mixed(&all), labels: vec![0, 1, 45, 89, 90, 91, 98, 99], compress, semantic, table_cap: 2, issue: ctx.seed as usize });
             }
         }
     }
